@@ -935,9 +935,32 @@ class Interp:
             return lc.run_for(self, s, env, it)
         if isinstance(it, GenObject):
             return self._for_generator(s, env, it)
+        if type(it) is list:
+            return self._for_live_list(s, env, it)
         items = self.iterate(it)
         broke = False
         for x in items:
+            self.assign(s.target, x, env)
+            try:
+                self.block(s.body, env)
+            except BreakEx:
+                broke = True
+                break
+            except ContinueEx:
+                continue
+        if not broke:
+            self.block(s.orelse, env)
+
+    def _for_live_list(self, s, env, lst):
+        """`for` over a list reads it by a running index, as CPython does: items removed or added by the body while the
+        loop runs shift what is visited next (the classic remove-while-iterating skip is reproduced, not hidden)"""
+        broke = False
+        i = 0
+        while i < len(lst):
+            if i > self.MAX_CONCRETE_ITER:
+                raise Unsupported('iteration bound')
+            x = lst[i]
+            i += 1
             self.assign(s.target, x, env)
             try:
                 self.block(s.body, env)
